@@ -165,6 +165,23 @@ func TestC04(t *testing.T) {
 								c.Violation("C04/reopen/load-version-commit-id-differs", "LoadVersion(%d): LastCommitID %s, committed %s", ov, idStr(got), idStr(ids[ov]))
 							}
 							ck.multistore("load-version", fmt.Sprintf("LoadVersion(%d) with latest %d", ov, v), h, on.kvOf, h.snaps[ov])
+							// a node reopened at a retained version re-applies the following blocks (documented: "the next commit
+							// after loading must be idempotent"): it must reproduce the original commit IDs, block after block
+							if rapid.Bool().Draw(rt, "replayAfterLoadOlder") {
+								c.Label("replay-after-load-older")
+								for rv := ov + 1; rv <= v; rv++ {
+									var rid stypes.CommitID
+									if p := try(func() { rid = on.run(h.blocks[rv-1]) }); p != nil {
+										c.Violation("C04/load-version/replay-panics", "LoadVersion(%d) with latest %d, re-applying block %d: panic %v", ov, v, rv, p)
+										break
+									}
+									if !sameID(rid, ids[rv]) {
+										c.Violation("C04/load-version/replay-commit-id-differs", "LoadVersion(%d) with latest %d, re-applied block %d: commit %s, originally %s", ov, v, rv, idStr(rid), idStr(ids[rv]))
+										break
+									}
+								}
+								ck.multistore("load-version-replayed", fmt.Sprintf("LoadVersion(%d) + replay to %d", ov, v), h, on.kvOf, h.snaps[v])
+							}
 						}
 					}
 				}
